@@ -106,10 +106,16 @@ package config
 // the sub-packages with Go files that the package's exclusion list does not match are added and inherit
 // from the recursive package (C07).
 //@ define pkgDone(pc *PackageConfig) bool = pc != nil && pc.Config != nil && allPtrFieldsSet(pc.Config)
+// A path sorts strictly after every path it is nested in (property of the byte-wise string order).
+//@ axiom nested_sorts_after: forall p string, q string :: strings.HasPrefix(q, p + "/") ==> p < q
 //@ func (*RootConfig).Initialize props=C08,C07
 //@   requires Ghost() && allPtrFieldsSet(c.Config) && depth(c.TemplateData) == 0 && depth(c.Anchors) == 0
 //@   site mergeConfigs@0: $1 == c.Config && $2 == pkgConfig.Config
 //@   site mergeConfigs@1: $1 == *parentPkgConfig.Config && $2 == subPkgConfig.Config
+// "treated as if configured with the settings of their nearest configured recursive ancestor" (C07): when a
+// sub-package is merged from a recursive package, no recursive package that is still to be expanded lies
+// between the two (nearer ancestors have been merged before; mergeConfigs only fills what is unset).
+//@   site#nearest[C07] mergeConfigs@1: forall k int :: $outeri < k && k < len(recursivePackages) && strings.HasPrefix(subpkg, recursivePackages[k] + "/") ==> !strings.HasPrefix(recursivePackages[k], recursivePackageName + "/")
 //@   ensures#done err == nil ==> (forall k string :: (k in c.Packages) ==> pkgDone(c.Packages[k]))
 //@   ensures#keys forall k string :: old(k in c.Packages) ==> (k in c.Packages)
 //@   ensures#tree Ghost() && c.Config == old(c.Config) && c.Packages == old(c.Packages)
